@@ -166,11 +166,15 @@ def equal_cost_shortcut(ctx, clause: str):
     # common cost when distances were requested and 1 when error counts were, and the mistakes table is off
     inside = {x.id for st in ast.walk(br) for x in ([st.targets[0]] if isinstance(st, ast.Assign) and len(st.targets) == 1 else [])
               if isinstance(x, ast.Name)} - set(costs) - {"return_mistakes"}
-    cands = sorted(nm for nm in inside if any(d.name == nm and d.kind == "assign" and u(d.value) in ("1.0", "1") and
-                                              not any(x is d.stmt for x in ast.walk(br)) for d in rd.defs))
+    # the multiplier: assigned in the shortcut and multiplied into a returned value
+    mult_operands = {o.id for n_ in own_nodes(f.node) if isinstance(n_, ast.BinOp) and isinstance(n_.op, ast.Mult)
+                     for o in (n_.left, n_.right) if isinstance(o, ast.Name)}
+    cands = sorted(inside & mult_operands)
     if len(cands) != 1:
         raise AnalysisError(f"the cost multiplier of the equal-cost branch was not found (candidates {cands})")
     mname = cands[0]
+    pre_init = [d for d in rd.defs if d.name == mname and d.kind == "assign" and u(d.value) in ("1.0", "1")
+                and d.stmt is not None and not any(x is d.stmt for x in ast.walk(br))]
 
     class _Und(Exception):
         pass
@@ -200,7 +204,18 @@ def equal_cost_shortcut(ctx, clause: str):
                 for t in tg:
                     st_[t] = v_
             elif isinstance(x, ast.If):
-                _run(x.body if _ev(x.test, st_) else x.orelse, st_)
+                try:
+                    taken = x.body if _ev(x.test, st_) else x.orelse
+                except _Und:
+                    # a test on something that is not tracked (`warn`): both arms must leave the tracked values alike
+                    sa_, sb_ = dict(st_), dict(st_)
+                    _run(x.body, sa_)
+                    _run(x.orelse, sb_)
+                    if sa_ != sb_:
+                        raise
+                    st_.update(sa_)
+                    continue
+                _run(taken, st_)
             elif isinstance(x, (ast.Expr, ast.Pass)):
                 continue
             else:
@@ -210,14 +225,19 @@ def equal_cost_shortcut(ctx, clause: str):
     try:
         for flag in (False, True):
             st_ = {c: "COST" for c in costs}
-            st_.update({mname: 1.0, "return_mistakes": flag})
+            st_.update({mname: 1.0 if pre_init else "UNSET", "return_mistakes": flag})
             _run(br.body, st_)
             outcome[flag] = dict(st_)
+        # unequal costs: the other arm leaves the multiplier at 1
+        st_e = {c: "COST_" + c for c in costs}
+        st_e.update({mname: 1.0 if pre_init else "UNSET", "return_mistakes": True})
+        _run(br.orelse, st_e)
+        outcome["unequal"] = dict(st_e)
     except _Und as ex:
         col.undecided(f"{where}: equal-cost branch outside the interpreted fragment ({ex})")
         outcome = None
     if outcome is not None:
-        col.ob("G16", clause, f"{where}::costs-reset-to-1", all(outcome[fl][c] in (1, 1.0) for fl in outcome for c in costs),
+        col.ob("G16", clause, f"{where}::costs-reset-to-1", all(outcome[fl][c] in (1, 1.0) for fl in (True, False) for c in costs),
                "in the equal-cost branch the three costs are not all reset to 1.0", rel, br.lineno)
         col.ob("G16", clause, f"{where}::multiplier-only-for-distances", outcome[True][mname] in (1, 1.0),
                f"`{mname}` rescales by the cost even when error counts (return_mistakes) are requested: an error rate "
@@ -225,11 +245,10 @@ def equal_cost_shortcut(ctx, clause: str):
         col.ob("G16", clause, f"{where}::multiplier-read-before-reset", outcome[False][mname] == "COST",
                f"with distances requested the multiplier is {outcome[False][mname]!r} after the branch, not the common cost (it is "
                f"taken after the cost was reset to 1.0, or not at all)", rel, br.lineno, sample=str(outcome[False][mname]))
-        col.ob("G16", clause, f"{where}::mistakes-table-off-for-equal-costs", all(outcome[fl]["return_mistakes"] is False for fl in outcome),
+        col.ob("G16", clause, f"{where}::mistakes-table-off-for-equal-costs", all(outcome[fl]["return_mistakes"] is False for fl in (True, False)),
                "the equal-cost branch does not fall back to the distance table", rel, br.lineno)
-    init = [d for d in rd.defs if d.name == mname and d.kind == "assign" and u(d.value) in ("1.0", "1")]
-    col.ob("G16", clause, f"{where}::multiplier-initialised-1", len(init) == 1,
-           f"the multiplier `{mname}` is not initialised to 1.0", rel, f.line)
+    col.ob("G16", clause, f"{where}::multiplier-initialised-1", outcome is not None and outcome["unequal"][mname] in (1, 1.0),
+           f"with unequal costs the multiplier `{mname}` is {outcome['unequal'][mname] if outcome else '?'}, not 1.0", rel, f.line)
     # every returned distance is multiplied by the multiplier exactly once (the mask form is not a distance)
     rets = [n for n in own_nodes(f.node) if isinstance(n, ast.Return) and n.value is not None]
     counts = {}
@@ -237,8 +256,9 @@ def equal_cost_shortcut(ctx, clause: str):
         prods = {id(x) for x in rd.derives(r_.value).nodes() if isinstance(x, ast.BinOp) and isinstance(x.op, ast.Mult)
                  and any(isinstance(o, ast.Name) and o.id == mname for o in (x.left, x.right))}
         counts[r_.lineno] = len(prods)
-    scaled = [ln for ln, k in counts.items() if k == 1]
-    okc = all(k <= 1 for k in counts.values()) and len(scaled) == 2
+    from sa.astutil import under_flag
+    expect = {r_.lineno: (0 if under_flag(guards_of(pm, r_), "return_mask", True) else 1) for r_ in rets}
+    okc = counts == expect and sum(expect.values()) >= 2
     col.ob("G16", clause, f"{where}::both-results-rescaled", okc,
            f"multiplications by the multiplier on the way to each return: {counts} (expected exactly one for the final and the "
            f"per-prefix result, none for the mask)", rel, f.line, sample=counts)
